@@ -104,9 +104,9 @@ Theorem C12_delivered_path_is_value_without_fragment :
   forall v q, path_parse v = Ok q -> pq_as_str q = path_canon v.
 Proof. exact path_parse_as_str. Qed.
 
-(* T3 (send side): the field lines h3 hands to the encoder are the pseudo fields first, in the fixed order
-   :method :scheme :authority :path :status :protocol, each at most once, with the caller's values, followed by the
-   caller's header map in iteration order *)
+(* T3 (send side): the field lines h3 hands to the encoder are the pseudo fields first, each at most once (the
+   statement fixes no order among them), with the caller's values, followed by the caller's header map in iteration
+   order; :scheme and :path are present except for a plain CONNECT, :protocol only for an extended CONNECT *)
 Theorem C12_sent_request_pseudo_fields_first :
   forall m u fields ext emitted, regular_map fields -> send_request m u fields ext = Ok emitted ->
     exists ps, pseudo_first emitted ps (hm_iter fields) /\ request_pseudo_ok m u ext ps.
@@ -158,10 +158,18 @@ Example C12_too_many_fields_inhabited :
   try_from (fun _ => false) (repeat ([97], [98]) (N.to_nat 24577)) = Err TooManyFields /\
   (exists h, try_from (fun _ => false) (repeat ([97], [98]) (N.to_nat 300)) = Ok h).
 Proof. split; [vm_compute; reflexivity|eexists; vm_compute; reflexivity]. Qed.
+(* an extended CONNECT: the five pseudo fields (in whatever order HeaderIter takes them) and then the map *)
+Definition ex_has (f : fieldline) (l : list fieldline) : bool :=
+  existsb (fun g => beq (fst g) (fst f) && beq (snd g) (snd f)) l.
 Example C12_sent_request_inhabited :
-  send_request m_CONNECT {| u_scheme := Some s_https; u_authority := [97]; u_path := pq_slash |} [([120], [[121]; [122]])] (Some 0)
-  = Ok [(pn_method, m_CONNECT); (pn_scheme, s_https); (pn_authority, [97]); (pn_path, [47]);
-        (pn_protocol, [119; 101; 98; 116; 114; 97; 110; 115; 112; 111; 114; 116]); ([120], [121]); ([120], [122])].
+  match send_request m_CONNECT {| u_scheme := Some s_https; u_authority := [97]; u_path := pq_slash |} [([120], [[121]; [122]])] (Some 0) with
+  | Ok l =>
+      forallb (fun f => ex_has f (firstn 5 l))
+        [(pn_method, m_CONNECT); (pn_scheme, s_https); (pn_authority, [97]); (pn_path, [47]);
+         (pn_protocol, [119; 101; 98; 116; 114; 97; 110; 115; 112; 111; 114; 116])]
+      && ex_has ([120], [121]) (firstn 1 (skipn 5 l)) && ex_has ([120], [122]) (skipn 6 l) && (length l =? 7)%nat
+  | _ => false
+  end = true.
 Proof. vm_compute. reflexivity. Qed.
 
 Print Assumptions C12_request_delivered_only_if_well_formed.
